@@ -41,7 +41,6 @@ func init() { facts["C19Flags"] = c19FlagsFact }
 type famCfg struct {
 	id, dir, file, goType string
 	constType             string // declared type of the constants ("untyped int" for untyped blocks)
-	constBlocks           []int  // indices of the const blocks of the file that belong to the family
 	shape                 string // "seq" | "fields" | "mapsort" | "none"
 	decomp                string // method name
 	mapVar                string
@@ -50,12 +49,12 @@ type famCfg struct {
 }
 
 var c19Families = []famCfg{
-	{id: "Flags", dir: "network/smb/smb_v10/message/header/flags", file: "flags.go", goType: "Flags", constType: "untyped int", constBlocks: []int{0}, shape: "seq", decomp: "String", preds: true},
-	{id: "Flags2", dir: "network/smb/smb_v10/message/header/flags2", file: "flags2.go", goType: "Flags2", constType: "untyped int", constBlocks: []int{0}, shape: "seq", decomp: "String", preds: true},
-	{id: "Capabilities", dir: "network/smb/smb_v10/capabilities", file: "capabilities.go", goType: "Capabilities", constType: "Capabilities", constBlocks: []int{0}, shape: "seq", decomp: "String", preds: true},
-	{id: "SecurityMode", dir: "network/smb/smb_v10/securitymode", file: "securitymode.go", goType: "SecurityMode", constType: "SecurityMode", constBlocks: []int{0, 1}, shape: "none", preds: true},
-	{id: "UserAccountControl", dir: "network/ldap/ldap_attributes", file: "UserAccountControl.go", goType: "UserAccountControl", constType: "UserAccountControl", constBlocks: []int{0}, shape: "mapsort", decomp: "String", mapVar: "UserAccountControlMap", preds: true},
-	{id: "KeyCredFlags", dir: "windows/keycredential/key", file: "CustomKeyInformationFlags.go", goType: "CustomKeyInformationFlags", constType: "uint8", constBlocks: []int{0}, shape: "fields", decomp: "FromBytes", preds: true},
+	{id: "Flags", dir: "network/smb/smb_v10/message/header/flags", file: "flags.go", goType: "Flags", constType: "untyped int", shape: "seq", decomp: "String", preds: true},
+	{id: "Flags2", dir: "network/smb/smb_v10/message/header/flags2", file: "flags2.go", goType: "Flags2", constType: "untyped int", shape: "seq", decomp: "String", preds: true},
+	{id: "Capabilities", dir: "network/smb/smb_v10/capabilities", file: "capabilities.go", goType: "Capabilities", constType: "Capabilities", shape: "seq", decomp: "String", preds: true},
+	{id: "SecurityMode", dir: "network/smb/smb_v10/securitymode", file: "securitymode.go", goType: "SecurityMode", constType: "SecurityMode", shape: "none", preds: true},
+	{id: "UserAccountControl", dir: "network/ldap/ldap_attributes", file: "UserAccountControl.go", goType: "UserAccountControl", constType: "UserAccountControl", shape: "mapsort", decomp: "String", mapVar: "UserAccountControlMap", preds: true},
+	{id: "KeyCredFlags", dir: "windows/keycredential/key", file: "CustomKeyInformationFlags.go", goType: "CustomKeyInformationFlags", constType: "uint8", shape: "fields", decomp: "FromBytes", preds: true},
 }
 
 func c19FlagsFact(repo string) (string, any, error) {
@@ -124,16 +123,9 @@ func c19Family(repo string, cfg famCfg) (*C19Family, error) {
 	if fam.Bits, err = p.bitsOf(cfg.goType); err != nil {
 		return nil, err
 	}
-	blocks := constBlocks(f)
-	if len(blocks) != len(cfg.constBlocks) {
-		return nil, fmt.Errorf("%s: %d const blocks, expected %d", fam.File, len(blocks), len(cfg.constBlocks))
-	}
-	for _, i := range cfg.constBlocks {
-		cs, err := p.readConstBlock(blocks[i], cfg.constType, "flag constants of "+cfg.id)
-		if err != nil {
-			return nil, err
-		}
-		fam.Consts = append(fam.Consts, cs...)
+	// the constants of the family's type, wherever the file declares them (tableConsts, c19_common.go)
+	if fam.Consts, err = p.tableConsts(f, cfg.constType, "flag constants of "+cfg.id); err != nil {
+		return nil, err
 	}
 	seen := map[string]bool{}
 	for _, c := range fam.Consts {
@@ -568,7 +560,7 @@ func c19FamilyByEvaluation(p *c19pkg, f *ast.File, repo string, cfg famCfg, fam 
 				p.claimed[x] = "helper of an evaluated method"
 			}
 		case *ast.GenDecl:
-			if x.Tok != token.VAR {
+			if x.Tok != token.VAR && x.Tok != token.CONST {
 				continue
 			}
 			for _, s := range x.Specs {
